@@ -1511,6 +1511,7 @@ package sdf
 
 //@ func ThreadParameters.ToMillimetre
 //@   property C18
+//@   pure
 //@   ensures [already-metric-is-returned-unchanged] t.Units == "mm" ==> r == t
 //@   ensures [lengths-scaled-by-25.4] t.Units != "mm" ==> r.Radius == t.Radius*25.4 && r.Pitch == t.Pitch*25.4 && r.HexFlat2Flat == t.HexFlat2Flat*25.4
 //@   ensures [angle-and-name-kept] r.Taper == t.Taper && r.Name == t.Name
@@ -1518,7 +1519,7 @@ package sdf
 //@ end
 
 //@ func SawTooth
-//@   property C18
+//@   property C18 C02 C03
 //@   id range
 //@   requires period > 0
 //@   ensures [at-least-minus-half-period] -period/2 <= r
@@ -1527,7 +1528,7 @@ package sdf
 //@ end
 
 //@ lemma sawtooth_periodic(x real, period real, n int)
-//@   property C18
+//@   property C18 C02 C03
 //@   requires period > 0
 //@   let a = SawTooth(x + real(n)*period, period)
 //@   let b = SawTooth(x, period)
